@@ -279,6 +279,18 @@ func emitNodeAssemblerHelper_mapoid_mapAssemblerMethods(w io.Writer, adjCfg *Adj
 			case maState_initial:
 				panic("invalid state: AssembleValue cannot be called when no key is primed")
 			case maState_midKey:
+				if ma.cm == schema.Maybe_Value {
+					if _, exists := ma.w.m[ma.w.t[len(ma.w.t)-1].k]; exists {
+						// A repeated key: drop the row begun for it, go back to expecting a key, and let the value assembler report it.
+						k := ma.w.t[len(ma.w.t)-1].k
+						ma.w.t = ma.w.t[:len(ma.w.t)-1]
+						ma.ka.w = nil
+						ma.cm = schema.Maybe_Absent
+						ma.state = maState_initial
+						ma.ka.reset()
+						return _ErrorThunkAssembler{datamodel.ErrRepeatedMapKey{Key: &k}}
+					}
+				}
 				if !ma.keyFinishTidy() {
 					panic("invalid state: AssembleValue cannot be called when in the middle of assembling a key")
 				} // if tidy success: carry on
